@@ -104,7 +104,12 @@ def compose(fx, chk, tier, tag, pid, rules, keyfilter=None, floor=None, what=Non
     import os
     import report
     if not ACTIVE:
+        # outermost composition: the composing pack is the root of the stack for the duration of this call
         ACTIVE.append(chk.pid)
+        try:
+            return compose(fx, chk, tier, tag, pid, rules, keyfilter, floor, what, fn)
+        finally:
+            ACTIVE.pop()
     if pid in ACTIVE:
         # the owning pack is further up the composition stack (it composes this one, which composes it back): its
         # instances are reported there, not here
